@@ -230,7 +230,6 @@ func (c *Chain) Deliver(msgs []sdk.Msg, signers ...*Acct) abci.ResponseDeliverTx
 	return c.App.DeliverTx(abci.RequestDeliverTx{Tx: bz})
 }
 
-
 // Fund mints through the jklmint module account and sends to addr.
 func (c *Chain) Fund(ctx sdk.Context, addr sdk.AccAddress, coins sdk.Coins) {
 	if err := c.App.BankKeeper.MintCoins(ctx, "jklmint", coins); err != nil {
